@@ -85,6 +85,17 @@ def rule_no_lossy_map_merge(ctx, rid, fns, floor, what="input"):
         b = Body(f)
         for bi, t in b.calls():
             nm = callee_name(t) or ""
+            if re.search(r"::extend$", nm) and t["args"] and op_place(t["args"][0]) is not None:
+                # `map.extend(other_map)` replaces the value of every key the map already has
+                rt = b.local_ty(op_place(t["args"][0])["l"])["s"]
+                if re.search(r"(HashMap|BTreeMap)<[^<>]*, *(std::vec::Vec|std::collections::\w+)<", rt):
+                    n += 1
+                    key = "%s/map-extend" % f.short
+                    if any(bi in blks for h, blks in b.loops()):
+                        ctx.violation(rid, key, "%s merges a map of collections into another with extend(..) inside a loop: for a key both maps hold, the collection gathered earlier is replaced, not appended to (shapes of a layer used by two ports disappear)" % f.short, b.site(bi), key)
+                    else:
+                        ctx.ok(rid, key, "single extend outside any loop")
+                continue
             if not re.search(r"(HashMap|BTreeMap)::<.*>::insert$|Entry::<.*>::or_insert$|Entry<.*>::or_insert$|::or_insert$|VacantEntry::<.*>::insert$|VacantEntry<.*>::insert$", nm):
                 continue
             vals = [a for a in t["args"][1:] if op_place(a) is not None and COLL.match(b.local_ty(op_place(a)["l"])["s"])]
